@@ -368,6 +368,9 @@ func genWS(t *rapid.T) WSCase {
 		m := WSMsg{Kind: rapid.SampledFrom([]int{0, 0, 0, 1, 2, 3}).Draw(t, "kind")}
 		if m.Kind < 2 {
 			m.N = rapid.SampledFrom([]int{0, 1, 1, 2, 5, 50, 300, 5000}).Draw(t, "len")
+			if c.Frag >= 64 && rapid.IntRange(0, 9).Draw(t, "big") == 0 { // a message around / beyond the 64 KiB packet size (several packets batched into one message)
+				m.N = rapid.SampledFrom([]int{65535, 65536, 65537, 65540, 70000, 140000}).Draw(t, "biglen")
+			}
 			if m.N == 0 {
 				if empties++; empties > 5 { // bufio gives up after 100 consecutive empty reads; keep far below
 					m.N = 1
@@ -480,7 +483,7 @@ type RealWSCase struct {
 
 func genRealWS(t *rapid.T) RealWSCase {
 	return RealWSCase{
-		Msgs:     rapid.SliceOfN(rapid.SampledFrom([]int{1, 2, 10, 100, 1000, 20000}), 1, 8).Draw(t, "msgs"),
+		Msgs:     rapid.SliceOfN(rapid.SampledFrom([]int{1, 2, 10, 100, 1000, 20000, 20000, 65536, 65537, 100000}), 1, 8).Draw(t, "msgs"),
 		WriteBuf: rapid.SampledFrom([]int{16, 64, 1024, 4096}).Draw(t, "writebuf"),
 		Reads:    rapid.SliceOfN(rapid.SampledFrom([]int{1, 5, 64, 4096, 65536}), 1, 3).Draw(t, "reads"),
 		Echo:     rapid.SliceOfN(rapid.SampledFrom([]int{1, 10, 1000, 70000}), 0, 4).Draw(t, "echo"),
